@@ -23,14 +23,19 @@ def run(c):
               "and non-constant conditions, init statements, function literals, loops, switches; every probe(n) call is one "
               "evaluation (engine verdict with shared state, with fresh state, walker flag, oracle); a case is non-trivial and "
               "distinct by its context signature = the sequence of (constant-ness of the condition, part entered) of the "
-              "enclosing ifs / function literals, counted only when some enclosing if is constant")
+              "enclosing ifs / function literals, counted only when some enclosing if is constant; every file runs under the "
+              "single-file engine and under one of eight other load histories (Deadcode rules loaded before / after / between "
+              "files without them, next to imported bundles, inside a bundle whose later files have none), and in half of the "
+              "cases right after a run on the same state that a panicking Report callback aborted inside a dead branch")
     c.trusted += walkerlib.TRUSTED + ["engine-level oracle: ast.Inspect + stack + types.Info.Types[cond].Value in harness/cmd/walker"]
     c.notes += ["whether a pattern matches is gogrep's decision; constant-ness of a condition is go/types' decision (both trusted)",
                 "the model reads one fact from types.Info: the constant value of IfStmt.Cond"]
 
     c.build_theories()
-    c.require_theories("Ast/*.v")
-    inst_ok = walkerlib.prepare(c, ["C16/C16.v"])
+    c.require_theories("Ast/*.v", "Engine/RunState.v")
+    inst_ok = False
+    if walkerlib.go2coq(c, "runnerstate", "Gen_RunnerState.v"):
+        inst_ok = walkerlib.prepare(c, [], extra_gen=["Gen_RunnerState.v"], extra_tmpl=["C16/Inst_C16Run.v", "C16/C16.v"])
 
     hb = c.build_harness("walker")
     if hb is None:
@@ -40,6 +45,7 @@ def run(c):
         rc, out = c.run_harness(hb, ["-mode", "deadcode", "-gen", str(nfiles), "-size", str(size), "-seed", str(seed),
                                      "-tmp", os.path.join(c.work, "tmp")], timeout=900)
         n = 0
+        hist = set()
         for line in out.splitlines():
             line = line.strip()
             if not line.startswith("{"):
@@ -47,15 +53,26 @@ def run(c):
             o = json.loads(line)
             n += 1
             if o.get("err"):
-                c.obligation("harness-run:deadcode:" + o.get("name", "?"), False, o["err"] + "\n" + (o.get("src") or "")[:1500])
+                if o["err"].startswith("load: ") and "could not import" not in o["err"]:
+                    # the Deadcode() rules load alone, so they must load next to other files / bundles
+                    c.fail("oracle", "a load history with Deadcode() rules does not load: " + o["err"],
+                           input={"load_history": o.get("config"), "rules_files": o.get("files"), "load_order": o.get("order")},
+                           expected="loads", observed=o["err"])
+                else:
+                    c.obligation("harness-run:deadcode:" + o.get("name", o.get("config", "?")), False, o["err"] + "\n" + (o.get("src") or "")[:1500])
                 continue
             c.count(o["probes"])
+            c.coverage["runs_after_a_callback_panic_inside_a_dead_branch"] = c.coverage.get("runs_after_a_callback_panic_inside_a_dead_branch", 0) + o.get("dead_panics", 0)
+            if o.get("config") and o["probes"]:
+                hist.add(o["config"])
             for s in o.get("sigs") or []:
                 if any(x[:1] in "TF" for x in s.split(":", 1)[1].split(".")):
                     c.nontriv(s)
             for m in o.get("mismatch") or []:
                 c.fail("oracle", "Deadcode() verdict contradicts the constant-condition oracle: " + m,
-                       input={"target": o.get("src"), "rules": "Match(`probe($x)`).Where(m.Deadcode()) / .Where(!m.Deadcode())", "seed": seed},
+                       input={"target": o.get("src"), "rules": "Match(`probe($x)`).Where(m.Deadcode()) / .Where(!m.Deadcode())", "seed": seed,
+                              "load_history": o.get("config"), "rules_files": o.get("files"), "load_order": o.get("order"),
+                              "before_on_the_shared_state": o.get("poison") or "the earlier generated files of this engine"},
                        expected="dead iff some enclosing if has a constant condition and the probe lies in its Body (false) / Else (true)",
                        observed=m)
             if o["probes"] and not o.get("mismatch"):
@@ -63,6 +80,9 @@ def run(c):
         if rc != 0 or n == 0:
             c.obligation("harness-run:deadcode", False, out[-2000:])
         c.coverage["deadcode_files"] = c.coverage.get("deadcode_files", 0) + n
+        c.coverage["load_histories_with_deadcode_rules"] = max(c.coverage.get("load_histories_with_deadcode_rules", 0), len(hist))
+        if len(hist) < 6:
+            c.obligation("harness:deadcode-load-histories", False, "only %d of the load histories with Deadcode() rules ran: %s" % (len(hist), sorted(hist)))
 
     def events(nrepo, nstd, ngen, size, tag, seed):
         obs = walkerlib.run_events(c, hb, walkerlib.pick_files(c, nrepo, nstd), ngen, size, seed=seed)
